@@ -117,6 +117,7 @@ type c02Sess struct {
 	ppp    *SessionState
 	ctx    *allocator.Context
 	ipcp   bool
+	acked  bool // the peer has acknowledged our IPCP Configure-Request in this authentication
 	told4  net.IP
 	duid   bool // the session recorded the client's DUID (a SOLICIT was seen)
 	bound4 net.IP
@@ -134,6 +135,7 @@ type c02World struct {
 	sess  map[string]*c02Sess
 	grpP4 map[int]string
 	grpP6 map[int]string
+	pname map[string]string // family+key -> registry key "<profile>/k<key>" of that pool
 }
 
 // cfg tokens (before the first ';'):
@@ -143,7 +145,14 @@ type c02World struct {
 //   G <gid> <prof4|-> <prof6|->                       subscriber group (S-VLAN 100+gid)
 //   S <sid> <P|I> <gid> <mac>                         subscriber session
 func c02Build(cfgToks []string) (*c02World, error) {
-	w := &c02World{sess: map[string]*c02Sess{}, grpP4: map[int]string{}, grpP6: map[int]string{}}
+	w := &c02World{sess: map[string]*c02Sess{}, grpP4: map[int]string{}, grpP6: map[int]string{}, pname: map[string]string{}}
+	// NS (first token): IPv6 profiles are named like the IPv4 ones (p<prof>), so that an IPv4 pool, an IA_NA pool and a
+	// PD pool can carry the SAME registry key "p<prof>/k<key>"
+	qp := "q"
+	if len(cfgToks) > 0 && cfgToks[0] == "NS" {
+		qp = "p"
+		cfgToks = cfgToks[1:]
+	}
 	v4 := map[string]*ip.IPv4Profile{}
 	v6 := map[string]*ip.IPv6Profile{}
 	groups := map[string]*subscriber.SubscriberGroup{}
@@ -155,7 +164,7 @@ func c02Build(cfgToks []string) (*c02World, error) {
 	// the profiles p0,p1 / q0,q1 always exist (possibly without pools)
 	for _, n := range []string{"0", "1"} {
 		v4["p"+n] = &ip.IPv4Profile{Gateway: "192.0.2.1", DNS: []string{"192.0.2.53"}}
-		v6["q"+n] = &ip.IPv6Profile{}
+		v6[qp+n] = &ip.IPv6Profile{}
 	}
 	i := 0
 	for i < len(cfgToks) {
@@ -176,10 +185,11 @@ func c02Build(cfgToks []string) (*c02World, error) {
 				}
 			}
 			v4[pn].Pools = append(v4[pn].Pools, pool)
+			w.pname["4"+key] = pn + "/k" + key
 		case "P6":
 			key, prof, vrf, lo, hi := cfgToks[i+1], cfgToks[i+2], cfgToks[i+3], cfgToks[i+4], cfgToks[i+5]
 			i += 6
-			qn := "q" + prof
+			qn := qp + prof
 			if v6[qn] == nil {
 				v6[qn] = &ip.IPv6Profile{}
 			}
@@ -187,10 +197,11 @@ func c02Build(cfgToks []string) (*c02World, error) {
 			netw := (&net.IPNet{IP: lip.Mask(net.CIDRMask(64, 128)), Mask: net.CIDRMask(64, 128)}).String()
 			v6[qn].IANAPools = append(v6[qn].IANAPools, ip.IANAPool{Name: "k" + key, Network: netw,
 				RangeStart: lip.String(), RangeEnd: c02V6(hi).String(), VRF: c02VRF(vrf)})
+			w.pname["6"+key] = qn + "/k" + key
 		case "PD":
 			key, prof, vrf, base, nb, pl := cfgToks[i+1], cfgToks[i+2], cfgToks[i+3], cfgToks[i+4], cfgToks[i+5], cfgToks[i+6]
 			i += 7
-			qn := "q" + prof
+			qn := qp + prof
 			if v6[qn] == nil {
 				v6[qn] = &ip.IPv6Profile{}
 			}
@@ -199,6 +210,7 @@ func c02Build(cfgToks []string) (*c02World, error) {
 			netw := (&net.IPNet{IP: c02V6(base), Mask: net.CIDRMask(nbi, 128)}).String()
 			v6[qn].PDPools = append(v6[qn].PDPools, ip.PDPool{Name: "k" + key, Network: netw,
 				PrefixLength: uint8(pli), VRF: c02VRF(vrf)})
+			w.pname["D"+key] = qn + "/k" + key
 		case "G":
 			gid, _ := strconv.Atoi(cfgToks[i+1])
 			g := &subscriber.SubscriberGroup{VLANs: []subscriber.VLANRange{{SVLAN: strconv.Itoa(100 + gid)}}}
@@ -207,7 +219,7 @@ func c02Build(cfgToks []string) (*c02World, error) {
 				w.grpP4[gid] = g.IPv4Profile
 			}
 			if cfgToks[i+3] != "-" {
-				g.IPv6Profile = "q" + cfgToks[i+3]
+				g.IPv6Profile = qp + cfgToks[i+3]
 				w.grpP6[gid] = g.IPv6Profile
 			}
 			groups["g"+cfgToks[i+1]] = g
@@ -413,7 +425,66 @@ func c02V6Told(raw []byte) (string, string) {
 	return a6, pd
 }
 
+// the registry key the HA peer sends for pool <key> of a family: the pool's own name; a key that exists only in another
+// family resolves to THAT pool's name (in NS mode this is how a name of the wrong family reaches a lookup)
+func (w *c02World) haName(fam, key string) string {
+	if key == "-" {
+		return ""
+	}
+	if n, ok := w.pname[fam+key]; ok {
+		return n
+	}
+	for _, f := range []string{"4", "6", "D"} {
+		if n, ok := w.pname[f+key]; ok {
+			return n
+		}
+	}
+	return "none/k" + key
+}
+
+// HA sync receiver entry points of the registry: HR <4|6|D> <key|-> <addr | addr/len> <sid>, HL likewise
+func (w *c02World) haOp(f []string) string {
+	reg := allocator.GetGlobalRegistry()
+	name, sid := w.haName(f[1], f[2]), "s"+f[4]
+	var err error
+	switch f[1] {
+	case "4":
+		if f[0] == "HR" {
+			err = reg.ReserveIPInPool(name, c02V4(f[3]), sid)
+		} else {
+			reg.ReleaseIPInPool(name, c02V4(f[3]))
+		}
+	case "6":
+		if f[0] == "HR" {
+			err = reg.ReserveIANAInPool(name, c02V6(f[3]), sid)
+		} else {
+			reg.ReleaseIANAInPool(name, c02V6(f[3]))
+		}
+	case "D":
+		parts := strings.Split(f[3], "/")
+		l, _ := strconv.Atoi(parts[1])
+		pfx := &net.IPNet{IP: c02V6(parts[0]), Mask: net.CIDRMask(l, 128)}
+		if f[0] == "HR" {
+			err = reg.ReservePDInPool(name, pfx, sid)
+		} else {
+			reg.ReleasePDInPool(name, pfx)
+		}
+	default:
+		return "badop"
+	}
+	if err != nil {
+		return "ha err"
+	}
+	return "ha ok"
+}
+
 func (w *c02World) op(f []string) string {
+	if (f[0] == "HR" || f[0] == "HL") && len(f) == 5 {
+		if w.sess[f[4]] != nil {
+			return "skip"
+		}
+		return w.haOp(f)
+	}
 	s := w.sess[f[1]]
 	if s == nil {
 		return "skip"
@@ -430,6 +501,7 @@ func (w *c02World) op(f []string) string {
 			// RE-authentication: the link renegotiates LCP (onLCPDown) and authenticates again
 			p.onLCPDown()
 			s.ipcp = false
+			s.acked = false
 		}
 		p.Phase = ppp.PhaseAuthenticate
 		p.onAuthResult(true, c02Attrs(f[2], f[3], f[4], f[5], f[6], f[7], f[8]))
@@ -447,10 +519,14 @@ func (w *c02World) op(f []string) string {
 		if s.proto != "P" || s.dead || s.ppp.AllocCtx == nil || s.ipcp {
 			return "skip"
 		}
-		s.ipcp = true
 		p := s.ppp
-		if _, id, opts, ok := w.lastIPCP(0, ppp.ConfReq); ok {
-			p.handlePPP(c02IPCPFrame(ppp.ConfAck, id, opts))
+		// the peer acknowledges our Configure-Request once per authentication; after a Configure-Nak / -Reject of ITS
+		// request it simply sends the next request (several exchanges per authentication)
+		if !s.acked {
+			if _, id, opts, ok := w.lastIPCP(0, ppp.ConfReq); ok {
+				p.handlePPP(c02IPCPFrame(ppp.ConfAck, id, opts))
+			}
+			s.acked = true
 		}
 		mark := len(w.bus.frames)
 		var opts []byte
@@ -463,6 +539,7 @@ func (w *c02World) op(f []string) string {
 			switch code {
 			case ppp.ConfAck:
 				res = "ack:" + c02Opt3(ro)
+				s.ipcp = true // IPCP is open: no further exchange in this authentication
 			case ppp.ConfNak:
 				res = "nak:" + c02Opt3(ro)
 			case ppp.ConfRej:
